@@ -40,6 +40,17 @@ def bounds(tier):
             "insert_alphabet": INSERTS, "overwrite32": OVER32, "magic16": 65536, "max_base_len": 700 if tier == "quick" else 1500}
 
 
+SECONDARY_KINDS = ("hostblock",)
+
+
+def hosts(tier):
+    return common.HOSTS
+
+
+def workers_for_host(tier, host):
+    return 10 if host == common.PRIMARY else 2
+
+
 def prepare(tier):
     return {"progs": common.datasets("progs", common.REFS, 1), "headers": common.datasets("headers", ["3.8", "3.12"]), "tier": tier}
 
@@ -67,6 +78,25 @@ def base_files(plan, tier):
             with open(fs[0][1], "rb") as f:
                 out.append(("corpus-%s" % fam, f.read()))
     return out
+
+
+def deep_inputs(bases):
+    """(family, [file bytes]): the header of one file per reference version followed by a chain of N nested containers"""
+    hdrs = []
+    for name, data in bases:
+        if name.startswith("farm-"):
+            v = common.vt(name[5:])
+            n = 8 if v < (3, 3) else (12 if v < (3, 7) else 16)
+            hdrs.append((name[5:], data[:n]))
+    for nm, unit, tail in (("tuple", b"(\x01\x00\x00\x00", b"N"), ("small-tuple", b")\x01", b"N"), ("list", b"[\x01\x00\x00\x00", b"N"),
+                           ("dict-key", b"{", b"N"), ("dict-value", b"{N", b"N"), ("set", b"<\x01\x00\x00\x00", b"N"),
+                           ("frozenset", b">\x01\x00\x00\x00", b"N"), ("ref-tuple", b"\xa8\x01\x00\x00\x00", b"N")):
+        out = []
+        for v, h in hdrs:
+            for depth in (100, 400, 700, 1500, 6000):
+                out.append(h + unit * depth + tail)
+                out.append(h + unit * depth)    # and cut off at the deepest point
+        yield "deep-" + nm, out
 
 
 def faults(name, data, tier):
@@ -118,9 +148,31 @@ def cases(plan, tier, shard, nshards, host):
         k += 1
         if k % nshards == shard:
             yield {"kind": "magic16", "lo": lo, "hi": lo + 2048}
+    # every host: hostile nesting depth (the pure-Python reader recurses; what it does at the recursion limit, and how the
+    # error is reported, differs between host versions) and the single faults of the host's *own* version (native path)
+    for fam, inputs in deep_inputs(bases):
+        k += 1
+        if k % nshards == shard:
+            yield {"kind": "hostblock", "base": "deep", "family": fam, "inputs": [hx(b) for b in inputs]}
+    if host != common.PRIMARY:
+        for name, data in bases:
+            if name != "farm-%s" % host:
+                continue
+            block = []
+            for fam, mut in faults(name, data, "quick"):
+                block.append(mut)
+                if len(block) >= 400:
+                    k += 1
+                    if k % nshards == shard:
+                        yield {"kind": "hostblock", "base": name, "family": "native-of-host", "inputs": [hx(b) for b in block]}
+                    block = []
+            if block:
+                k += 1
+                if k % nshards == shard:
+                    yield {"kind": "hostblock", "base": name, "family": "native-of-host", "inputs": [hx(b) for b in block]}
     k += 1
     if k % nshards == shard:
-        yield {"kind": "block", "base": "text", "family": "not-bytecode",
+        yield {"kind": "hostblock", "base": "text", "family": "not-bytecode",
                "inputs": [hx(b"") , hx(b"\n"), hx(b"print('hello')\n" * 5), hx(b"#!/usr/bin/python\nimport os\nos.system('true')\n" + b"#" * 60),
                           hx(b"\x00" * 64), hx(b"\xff" * 64), hx(b"PK\x03\x04" + b"\0" * 60), hx(b"\x7fELF" + b"\0" * 60)]}
 
@@ -350,7 +402,9 @@ def child_run(case, scratch, wfd):
         data = unhx(hxd)
         w.write("start %d\n" % i)
         w.flush()
-        via_path = case["family"] in ("prefix", "not-bytecode") or i % 16 == 0
+        # load_module itself refuses files shorter than 50 bytes before anything is parsed: such data never reaches the
+        # file-object entry point through load_module, so it is only ever presented as a file
+        via_path = case["family"] in ("prefix", "not-bytecode") or i % 16 == 0 or len(data) < 50
         r = monitored_load(data, scratch, via_path, real_traceback=(case["family"] in ("prefix", "not-bytecode")))
         r["i"] = i
         r["bad_events"] = judge_events(r.pop("events"), scratch, data)
@@ -446,7 +500,7 @@ def run_case(case, ctx):
                 inputs.append(hx(struct.pack("<H", n) + suf + b"\0" * 46))
         sub = {"kind": "block", "base": "magic16", "family": "magic16", "inputs": inputs}
         return run_block(sub, ctx)
-    return run_block(case, ctx)
+    return run_block(dict(case, kind="block"), ctx)
 
 
 def run_canary(ctx):
